@@ -27,6 +27,7 @@ struct DocCfg {
     bool wsText = true;       // whitespace-only text nodes
     bool ssPI = false;        // xml-stylesheet PI (href "ss.xsl")
     bool deep = false;        // nesting depth 200 chain
+    int deepLevels = 200;
     bool longName = false;    // one 1000-character element name
     bool bigNum = false;      // numeric extremes in v attributes
 };
@@ -124,7 +125,7 @@ struct DocGen {
             if (g.chance(1, 6)) body += xmlEsc(text());
             elem(body, 1);
         }
-        if (c.deep) { std::string open, close; for (int i = 0; i < 200; ++i) { open += "<d>"; close += "</d>"; } body += open + "deep" + close; }
+        if (c.deep) { std::string open, close; for (int i = 0; i < c.deepLevels; ++i) { open += "<d>"; close += "</d>"; } body += open + "deep" + close; }
         if (c.longName) { std::string n(1000, 'L'); body += "<" + n + " id=\"nL\">long</" + n + ">"; }
         if (c.dtd) {
             s += "<!DOCTYPE doc [\n";
@@ -390,7 +391,8 @@ struct SSGen {
         if (on("randexpr")) { ExprGen eg(g, false, d.names); std::string body, rootb;
             for (int i = 0; i < 4; ++i) { auto e = eg.make(3); std::string show = e.second == 'N' ? "<xsl:value-of select=\"count(" + e.first + ")\"/>:<xsl:for-each select=\"(" + e.first + ")[position() &lt; 6]\"><xsl:value-of select=\"concat(name(), '=', @id, ' ')\"/></xsl:for-each>" : vo("string(" + e.first + ")");
                 body += "{" + show + "}"; if (i < 2) rootb += "{" + show + "}"; }
-            perNode += "<xsl:if test=\"count(preceding::*) mod 4 = 0\">" + o("randexpr", body) + "</xsl:if>"; rootBody += "<o f=\"randexpr\" n=\"/\">" + rootb + "</o>"; }
+            // (not on documents with more than 120 elements: a path of several reverse-axis steps costs the product of the intermediate node-set sizes)
+            perNode += "<xsl:if test=\"$G1 &lt; 120 and count(preceding::*) mod 4 = 0\">" + o("randexpr", body) + "</xsl:if>"; rootBody += "<xsl:if test=\"$G1 &lt; 120\"><o f=\"randexpr\" n=\"/\">" + rootb + "</o></xsl:if>"; }
         // more named decimal formats with different symbols than the formatter cache holds (10)
         if (on("manydf")) { std::string uses; static const char* const seps = ",:!_~^`|@$?="; for (int i = 0; i < 12; ++i) { std::string n = "mdf" + std::to_string(i); top += "<xsl:decimal-format name=\"" + n + "\" decimal-separator=\"" + std::string(1, seps[i]) + "\" grouping-separator=\"" + std::string(1, seps[(i + 5) % 12]) + "\"/>"; uses += vo("format-number(@v * 1000.5 + " + std::to_string(i) + ", '#" + std::string(1, seps[(i + 5) % 12]) + "##0" + std::string(1, seps[i]) + "0', '" + n + "')") + " "; }
             perNode += "<xsl:if test=\"count(preceding::*) mod 3 = 0\">" + o("manydf", uses) + "</xsl:if>"; }
